@@ -42,6 +42,39 @@ func factsC19(r *Repo) []Fact {
 			return true
 		})
 	}
+	// closesReplaced: before `writeChannelValues[next][t.nodeKey] = vs[i]` an if statement
+	// asserts the old slot value to streamReader and closes it
+	replaced := false
+	if fd != nil {
+		ast.Inspect(fd.Body, func(n ast.Node) bool {
+			is, ok := n.(*ast.IfStmt)
+			if !ok || is.Init == nil {
+				return true
+			}
+			if as, ok := is.Init.(*ast.AssignStmt); ok && len(as.Rhs) == 1 {
+				rhs := exprString(as.Rhs[0])
+				if strings.HasPrefix(rhs, "writeChannelValues[next][t.nodeKey].(") && strings.Contains(rhs, "streamReader") && containsMethodCall(is.Body, "close") {
+					replaced = true
+				}
+			}
+			return true
+		})
+		out = append(out, boolFact("closesReplaced", replaced, "compose/graph_run.go resolveCompletedTasks: the copy a repeated successor entry replaces is closed"))
+	} else {
+		out = append(out, unknownFact("closesReplaced", "Bool", "false", "compose/graph_run.go", "resolveCompletedTasks not found"))
+	}
+	// skippedChannelClosesValues: dagChannel.reportValues closes the streams when ch.Skipped
+	if rfd, _ := cp.Func("dagChannel", "reportValues"); rfd != nil {
+		okc := false
+		for _, st := range rfd.Body.List {
+			if is, ok := st.(*ast.IfStmt); ok && exprString(is.Cond) == "ch.Skipped" && containsMethodCall(is.Body, "close") {
+				okc = true
+			}
+		}
+		out = append(out, boolFact("skippedChannelClosesValues", okc, "compose/dag.go reportValues: streams handed to a skipped channel are closed"))
+	} else {
+		out = append(out, unknownFact("skippedChannelClosesValues", "Bool", "false", "compose/dag.go", "dagChannel.reportValues not found"))
+	}
 	if fd == nil {
 		out = append(out, unknownFact("closesSurplus", "Bool", "false", "compose/graph_run.go", "resolveCompletedTasks not found"))
 	} else {
